@@ -1,13 +1,29 @@
 """Independent readers for the tables embedded in periodictable.
 
-Every reader works on the TEXT of the table (module string attribute, data file, or - for Python
-literals - the source file through `ast`), shares no code with the library's own parsers and
-returns plain Python values.  Duplicated keys in the data are reported, never resolved silently."""
+Two layers:
+* live_<table>(): text readers.  Each works on the TEXT of the table in the tree under test (module string
+  attribute, data file, or - for Python literals - the source file through `ast`), shares no code with the
+  library's own parsers and returns plain Python values.  Duplicated keys are reported, never resolved silently.
+  They depend on the representation of the table in the source (a list literal that becomes a dict makes them
+  raise), and they follow the text (a row lost in the source is lost in the reading).
+* <table>(): what the checks use - reference(): per table the text of the tree under test (live reader) while it
+  is readable and holds at least 90 % of the rows of the PINNED COPY mc/ref/pinned_tables.json (made once with the
+  text readers from the unchanged tree, see the second half of this file), otherwise the pinned copy.  A deliberate
+  update of the data moves the reference with it ("the embedded table" is what the tree carries); a source whose
+  layout changes can neither stop the check nor take rows away unnoticed."""
 import os, re, ast, math
 from decimal import Decimal
 from ..common import REPO, MachineryError
 
 PKG = os.path.join(REPO, "periodictable")
+
+
+def _lib(name):
+    """periodictable.<name> of the tree under test (the text readers only; the pinned readers never import it)."""
+    import importlib
+    from ..common import load_pt
+    load_pt()
+    return importlib.import_module("periodictable." + name)
 
 
 # ---------------------------------------------------------------- numbers with uncertainty
@@ -47,11 +63,11 @@ def value_unc(text):
 
 # ---------------------------------------------------------------- mass tables
 def _mass_module_text(name):
-    import periodictable.mass as m
+    m = _lib("mass")
     return getattr(m, name)
 
 
-def isotope_masses():
+def live_isotope_masses():
     """{(Z, A): (symbol, mass, unc)} from mass.isotope_mass; line: Z-Sym-A,mass(unc)#?,abund,elmass."""
     out = {}
     for ln in _mass_module_text("isotope_mass").split("\n"):
@@ -67,7 +83,7 @@ def isotope_masses():
     return out
 
 
-def isotope_table_element_masses():
+def live_isotope_table_element_masses():
     """{Z: (mass, unc)}: the element-mass column of isotope_mass (used for elements that the
     atomic-weight table does not list)."""
     out = {}
@@ -78,7 +94,7 @@ def isotope_table_element_masses():
     return out
 
 
-def element_masses():
+def live_element_masses():
     """{Z: (symbol, mass, unc)} from mass.element_mass (abridged value, first number column)."""
     out = {}
     for ln in _mass_module_text("element_mass").split("\n"):
@@ -91,7 +107,7 @@ def element_masses():
     return out
 
 
-def isotope_abundances():
+def live_isotope_abundances():
     """{Z: {A: (fraction, unc)}} from mass.isotope_abundance (fractions as listed, not normalised)."""
     out = {}
     cur = None
@@ -121,7 +137,7 @@ def _assigned_call_or_literal(path, name):
     raise MachineryError("%s not found in %s" % (name, path))
 
 
-def element_densities():
+def live_element_densities():
     """{symbol: density or None} read from density.py's source: element_densities = dict(Sym=value|(value, note)|None)."""
     node = _assigned_call_or_literal(os.path.join(PKG, "density.py"), "element_densities")
     out = {}
@@ -155,11 +171,11 @@ def _strip_number(s):
     return float(m.group(1))
 
 
-def neutron_rows():
+def live_neutron_rows():
     """List of dicts, one per row of nsf.nsftable, columns per the comment block above the table:
     Z-Symbol[-A], concentration/half-life, spin, b_c, bp, bm, c (E flag), coherent, incoherent,
     total, absorption."""
-    import periodictable.nsf as nsf
+    nsf = _lib("nsf")
     rows = []
     seen = set()
     for ln in nsf.nsftable.split("\n"):
@@ -185,9 +201,9 @@ def neutron_rows():
     return rows
 
 
-def neutron_imag_rows():
+def live_neutron_imag_rows():
     """{(Z, A): (b_c_i, bp_i, bm_i)} from nsf.nsftableI."""
-    import periodictable.nsf as nsf
+    nsf = _lib("nsf")
     out = {}
     for ln in nsf.nsftableI.split("\n"):
         f = ln.split(",")
@@ -199,19 +215,19 @@ def neutron_imag_rows():
     return out
 
 
-def energy_tables():
+def live_energy_tables():
     """{(symbol, A or None): [(E_eV, re, im, abs), ...]} - nsf_tables.ENERGY_DEPENDENT_TABLES read as-is."""
-    from periodictable.nsf_tables import ENERGY_DEPENDENT_TABLES
+    ENERGY_DEPENDENT_TABLES = _lib("nsf_tables").ENERGY_DEPENDENT_TABLES
     return dict((k, [tuple(float(x) for x in row) for row in v]) for k, v in ENERGY_DEPENDENT_TABLES.items())
 
 
 # ---------------------------------------------------------------- covalent radii (Cordero)
-def covalent_radii():
+def live_covalent_radii():
     """{Z: (symbol-label, radius, uncertainty)} from covalent_radius.Cordero.
     Columns (comment above the table): Z, Symbol, radius(A), uncertainty (0.01A), n measurements.
     Rows whose first field is '-' are alternate spin/hybridisation states of the previous element
     and are skipped (first state wins).  Missing uncertainty -> 0."""
-    import periodictable.covalent_radius as cr
+    cr = _lib("covalent_radius")
     out = {}
     for ln in cr.Cordero.split("\n"):
         f = ln.split()
@@ -226,7 +242,7 @@ def covalent_radii():
 
 
 # ---------------------------------------------------------------- crystal structures (python literal + #Sym comments)
-def crystal_structures():
+def live_crystal_structures():
     """List of (index, value, label) from the source of crystal_structure.py: the entries of the
     `crystal_structures` list literal with the trailing `#Sym` comment of each entry (the
     independent statement of which element the entry belongs to)."""
@@ -245,9 +261,9 @@ def crystal_structures():
 
 
 # ---------------------------------------------------------------- emission lines
-def spectral_lines():
+def live_spectral_lines():
     """{symbol: (K_alpha, K_beta1)} from xsf.spectral_lines_data (columns: element, K_alpha, K_beta1)."""
-    import periodictable.xsf as xsf
+    xsf = _lib("xsf")
     out = {}
     for ln in xsf.spectral_lines_data.split("\n"):
         f = ln.split()
@@ -265,10 +281,10 @@ _CFML = re.compile(
     r"\(/([^/]*)/\)\s*\)", re.S)
 
 
-def magnetic_records():
+def live_magnetic_records():
     """List of (kind, symbol, charge, coefficients[7]) for every record of magnetic_ff.CFML_DATA.
     kind is 'j0' (Magnetic_Form with leading M), 'J' (leading J), 'j2', 'j4', 'j6'.  Own regex; no eval."""
-    import periodictable.magnetic_ff as mff
+    mff = _lib("magnetic_ff")
     out = []
     for m in _CFML.finditer(mff.CFML_DATA):
         arr, label, charge, body = m.group(1), m.group(2), int(m.group(3)), m.group(4)
@@ -288,3 +304,313 @@ def magnetic_records():
     if n_decl != len(out):
         raise MachineryError("magnetic reader matched %d of %d records" % (len(out), n_decl))
     return out
+
+
+# =================================================================== the pinned reference copy
+# The check modules do not take their expected values from the text of the tree under test: a change that loses a
+# row while it re-keys a table, or that changes the layout of the source (list -> dict, other variable name, other
+# file), would either take the reference along with it or make the text reader fail.  The expected values are a
+# COPY of the embedded tables, made once with the text readers above (live_*) from the unchanged tree and committed
+# as mc/ref/pinned_tables.json (see its "made_from" entry).  It is the fallback of reference() below.  After a deliberate
+# update of the data in the library, regenerate the copy (not required for soundness: the tree's text is preferred):
+#       cd /verif && VERIF_REPO=/repo /venv/bin/python -m mc.ref.tables --write-pinned
+# live_differences() compares the text of the tree under test with the copy (used for a note in the run record; a
+# text that the readers can no longer parse is reported there as 'unreadable', it is not an error of the check).
+PINNED_FILE = os.path.join(os.path.dirname(os.path.abspath(__file__)), "pinned_tables.json")
+_PINNED = None
+TABLE_NAMES = ("isotope_mass", "element_mass", "isotope_abundance", "element_densities", "neutron_rows",
+               "neutron_imag_rows", "energy_tables", "covalent_radii", "crystal_structures", "spectral_lines",
+               "magnetic_records", "cromer_mann")
+# number of rows of each table in the pinned copy (a truncated or hand-edited file is a machinery error)
+PINNED_ROWS = dict(isotope_mass=2939, element_mass=84, isotope_abundance=84, element_densities=119, neutron_rows=364,
+                   neutron_imag_rows=16, energy_tables=14, covalent_radii=96, crystal_structures=104, spectral_lines=91,
+                   magnetic_records=344, cromer_mann=211)
+
+
+def _plain(x):
+    """tuples -> lists, recursively (what JSON will hand back)."""
+    if isinstance(x, (list, tuple)):
+        return [_plain(v) for v in x]
+    if isinstance(x, dict):
+        return dict((k, _plain(v)) for k, v in x.items())
+    return x
+
+
+def _live_isotope_mass_rows():
+    iso = live_isotope_masses()
+    elcol = {}
+    for ln in _mass_module_text("isotope_mass").split("\n"):
+        f = ln.split(",")
+        z, _, a = f[0].split("-")
+        elcol[(int(z), int(a))] = value_unc(f[3])
+    return [[Z, A, sym, m, u] + list(elcol[(Z, A)]) for (Z, A), (sym, m, u) in iso.items()]
+
+
+def _live_cromer_mann_rows():
+    from . import xray as rx
+    return [[e["Z"], e["symbol"], list(e["a"]), e["c"], list(e["b"])] for e in rx.f0_entries()]
+
+
+# one maker per table: the rows of the table in the layout of the pinned copy, read from the TEXT of the tree under test
+LIVE_MAKERS = dict(
+    isotope_mass=_live_isotope_mass_rows,
+    element_mass=lambda: [[Z, sym, m, u] for Z, (sym, m, u) in live_element_masses().items()],
+    isotope_abundance=lambda: [[Z, [[A, v, u] for A, (v, u) in block.items()]] for Z, block in live_isotope_abundances().items()],
+    element_densities=lambda: [[sym, v] for sym, v in live_element_densities().items()],
+    neutron_rows=lambda: live_neutron_rows(),
+    neutron_imag_rows=lambda: [[Z, A] + list(v) for (Z, A), v in live_neutron_imag_rows().items()],
+    energy_tables=lambda: [[sym, A, [list(r) for r in rows]] for (sym, A), rows in live_energy_tables().items()],
+    covalent_radii=lambda: [[Z, lab, r, u] for Z, (lab, r, u) in live_covalent_radii().items()],
+    crystal_structures=lambda: [[i, v, lab] for i, v, lab in live_crystal_structures()],
+    spectral_lines=lambda: [[sym, ka, kb] for sym, (ka, kb) in live_spectral_lines().items()],
+    magnetic_records=lambda: [[kind, sym, q, list(c)] for kind, sym, q, c in live_magnetic_records()],
+    cromer_mann=_live_cromer_mann_rows,
+)
+
+
+def make_pinned():
+    """The content of the pinned copy, read from the tree in VERIF_REPO with the text readers (JSON-able: lists of
+    rows in table order, no tuple keys)."""
+    return _plain(dict((n, LIVE_MAKERS[n]()) for n in TABLE_NAMES))
+
+
+def write_pinned():
+    import json, subprocess
+    def git(*a):
+        try:
+            return subprocess.run(("git", "-C", REPO) + a, capture_output=True, text=True).stdout.strip()
+        except OSError:
+            return "?"
+    data = make_pinned()
+    data["made_from"] = dict(
+        tree=REPO, commit=git("rev-parse", "--short", "HEAD"),
+        uncommitted_changes_in_periodictable=git("status", "--porcelain", "--", "periodictable"),
+        how="cd /verif && VERIF_REPO=%s /venv/bin/python -m mc.ref.tables --write-pinned  (mc/ref/tables.py: the text readers "
+            "live_* and mc/ref/xray.py f0_entries() applied to that tree; floats written with repr, read back exactly)" % REPO,
+        rows=dict((n, len(data[n])) for n in TABLE_NAMES))
+    with open(PINNED_FILE, "w") as f:
+        json.dump(data, f, indent=None, separators=(",", ":"), sort_keys=True)
+        f.write("\n")
+    return data["made_from"]
+
+
+def pinned():
+    global _PINNED
+    if _PINNED is None:
+        import json
+        try:
+            data = json.load(open(PINNED_FILE))
+        except (OSError, ValueError) as e:
+            raise MachineryError("pinned reference tables %s: %s" % (PINNED_FILE, e))
+        for n in TABLE_NAMES:
+            if n not in data or len(data[n]) != PINNED_ROWS[n]:
+                raise MachineryError("pinned reference tables: %s has %s rows, %d expected"
+                                     % (n, len(data[n]) if n in data else "no", PINNED_ROWS[n]))
+        _PINNED = data
+    return _PINNED
+
+
+# ------------------------------------------------------------------ which copy the checks judge against
+# The properties speak of "the embedded table": the data the tree under test carries.  A deliberate update of the
+# data (new masses, a corrected row) must therefore move the reference with it, while a change of the LAYOUT of the
+# source (list -> dict, other variable, other file) must neither break the check nor take rows away unnoticed.  So:
+# per table, the text of the tree under test is the reference as long as the text reader can read it and finds at
+# least 90 % of the rows of the pinned copy; otherwise (unreadable, or most rows gone) the pinned copy is.  The
+# choice is made once per run in a forked child (the coordinating process never imports the library) and recorded.
+_REFERENCE = None
+_REFERENCE_NOTES = None
+
+
+def _build_reference():
+    want = pinned()
+    out, notes = {}, []
+    for n in TABLE_NAMES:
+        try:
+            rows = _plain(LIVE_MAKERS[n]())
+            if len(rows) * 10 < PINNED_ROWS[n] * 9:
+                raise ValueError("only %d of %d rows found" % (len(rows), PINNED_ROWS[n]))
+            out[n] = rows
+            if rows != want[n]:
+                notes.append("%s: the table text of the tree under test differs from the pinned copy (%d rows / %d); "
+                             "the tree's text is the reference" % (n, len(rows), len(want[n])))
+        except Exception as e:
+            out[n] = want[n]
+            notes.append("%s: the table text of the tree under test is unreadable for the text reader (%s: %s); the "
+                         "pinned copy is the reference" % (n, type(e).__name__, str(e)[:120]))
+    return out, notes
+
+
+def reference():
+    global _REFERENCE, _REFERENCE_NOTES
+    if _REFERENCE is None:
+        from .. import histmc
+        _REFERENCE, _REFERENCE_NOTES = histmc.in_fork(_build_reference)
+    return _REFERENCE
+
+
+def reference_notes():
+    reference()
+    return list(_REFERENCE_NOTES)
+
+
+def pinned_origin():
+    m = pinned()["made_from"]
+    return "commit %s of %s" % (m.get("commit"), m.get("tree"))
+
+
+def _unique(pairs, what):
+    out = {}
+    for k, v in pairs:
+        if k in out:
+            raise MachineryError("reference tables: duplicate %s %r" % (what, k))
+        out[k] = v
+    return out
+
+
+def isotope_masses():
+    """{(Z, A): (symbol, mass, unc)} - the isotope-mass table (pinned copy)."""
+    return _unique((((r[0], r[1]), (r[2], r[3], r[4])) for r in reference()["isotope_mass"]), "isotope")
+
+
+def isotope_table_element_masses():
+    """{Z: (mass, unc)}: the element-mass column of the isotope-mass table (last row of each element, as the loader
+    reads it; used for elements that the atomic-weight table does not list)."""
+    out = {}
+    for r in reference()["isotope_mass"]:
+        out[r[0]] = (r[5], r[6])
+    return out
+
+
+def element_masses():
+    """{Z: (symbol, mass, unc)} - the atomic-weight table; elements listed with '-' are absent."""
+    return _unique(((r[0], (r[1], r[2], r[3])) for r in reference()["element_mass"]), "element")
+
+
+def all_element_numbers():
+    """Z of every element row of the atomic-weight table, with or without a value: 1..118."""
+    return sorted(set(r[0] for r in reference()["isotope_mass"]))
+
+
+def isotope_abundances():
+    """{Z: {A: (fraction, unc)}} - the isotopic-composition table (fractions as listed, not normalised)."""
+    return _unique(((z, _unique(((a, (v, u)) for a, v, u in block), "isotope of %d" % z))
+                    for z, block in reference()["isotope_abundance"]), "composition block")
+
+
+def element_densities():
+    """{symbol: density or None (listed as unknown)} - the density table."""
+    return _unique(((s, v) for s, v in reference()["element_densities"]), "density row")
+
+
+def neutron_rows():
+    """List of dicts, one per row of the neutron table (keys as in live_neutron_rows)."""
+    rows = [dict(r) for r in reference()["neutron_rows"]]
+    _unique((((r["Z"], r["A"]), 1) for r in rows), "neutron row")
+    return rows
+
+
+def neutron_imag_rows():
+    """{(Z, A): (b_c_i, bp_i, bm_i)}"""
+    return _unique((((r[0], r[1]), tuple(r[2:5])) for r in reference()["neutron_imag_rows"]), "imaginary row")
+
+
+def energy_tables():
+    """{(symbol, A or None): [(E_eV, re, im, abs), ...]}"""
+    return _unique((((s, a), [tuple(x) for x in rows]) for s, a, rows in reference()["energy_tables"]), "energy table")
+
+
+def covalent_radii():
+    """{Z: (symbol-label, radius, uncertainty)} - first state of each element."""
+    return _unique(((r[0], (r[1], r[2], r[3])) for r in reference()["covalent_radii"]), "Cordero row")
+
+
+def crystal_structures():
+    """List of (index, value or None, label): the slots of the structure list in order, with the trailing #Sym
+    comment each slot had in the source."""
+    return [(i, v, lab) for i, v, lab in reference()["crystal_structures"]]
+
+
+def spectral_lines():
+    """{symbol: (K_alpha, K_beta1)}"""
+    return _unique(((r[0], (r[1], r[2])) for r in reference()["spectral_lines"]), "emission row")
+
+
+def magnetic_records():
+    """List of (kind, symbol, charge, coefficients[7]); Ho2+ J is listed twice in the data (both kept)."""
+    return [(k, s, q, tuple(c)) for k, s, q, c in reference()["magnetic_records"]]
+
+
+_CMSYM = re.compile(r"^([A-Z][a-z]?)(?:([0-9]+)([+-]))?$")
+
+
+def cromer_mann_entries():
+    """List of dict(Z, symbol, a[5], c, b[5]) - every '#S' entry of f0_WaasKirf.dat (pinned copy), symbols as written
+    there ('Fe', 'Fe2+', 'O1-', and the valence states 'Cval', 'Siva')."""
+    out = [dict(Z=r[0], symbol=r[1], a=tuple(r[2]), c=r[3], b=tuple(r[4])) for r in reference()["cromer_mann"]]
+    _unique(((e["symbol"], 1) for e in out), "Cromer-Mann entry")
+    return out
+
+
+def cromer_mann_symbol_parts(symbol):
+    """'Fe2+' -> ('Fe', 2); 'O1-' -> ('O', -1); 'O' -> ('O', 0); 'Cval', 'Siva' (valence states) -> None."""
+    m = _CMSYM.match(symbol)
+    if not m:
+        return None
+    q = int(m.group(2)) if m.group(2) else 0
+    return m.group(1), (q if m.group(3) != "-" else -q)
+
+
+def live_differences():
+    """[text, ...]: where the tables of the tree under test, as far as the text readers can still read them, differ
+    from the pinned copy.  Information for the run record only - the checks judge the library against the copy."""
+    import json
+    notes = []
+    want = pinned()
+    parts = dict(
+        mass=("isotope_mass", "element_mass", "isotope_abundance"), density=("element_densities",),
+        neutron=("neutron_rows", "neutron_imag_rows", "energy_tables"), covalent_radius=("covalent_radii",),
+        crystal_structure=("crystal_structures",), xsf=("spectral_lines", "cromer_mann"), magnetic_ff=("magnetic_records",))
+    try:
+        got = make_pinned()
+    except Exception as e:
+        got = None
+        first = "%s: %s" % (type(e).__name__, e)
+    if got is None:
+        # find out which tables are still readable
+        from . import xray as rx
+        readers = dict(isotope_mass=live_isotope_masses, element_mass=live_element_masses,
+                       isotope_abundance=live_isotope_abundances, element_densities=live_element_densities,
+                       neutron_rows=live_neutron_rows, neutron_imag_rows=live_neutron_imag_rows,
+                       energy_tables=live_energy_tables, covalent_radii=live_covalent_radii,
+                       crystal_structures=live_crystal_structures, spectral_lines=live_spectral_lines,
+                       magnetic_records=live_magnetic_records, cromer_mann=rx.f0_entries)
+        for n in TABLE_NAMES:
+            try:
+                readers[n]()
+            except Exception as e:
+                notes.append("%s: the text of the tree under test is unreadable for the text reader (%s: %s); "
+                             "the pinned copy is the reference" % (n, type(e).__name__, str(e)[:120]))
+        return notes or ["text readers failed (%s); the pinned copy is the reference" % first]
+    for n in TABLE_NAMES:
+        a = [json.dumps(r, sort_keys=True) for r in got[n]]
+        b = [json.dumps(r, sort_keys=True) for r in want[n]]
+        if a != b:
+            sa, sb = set(a), set(b)
+            only_live, only_pin = [r for r in a if r not in sb], [r for r in b if r not in sa]
+            notes.append("%s: the text of the tree under test differs from the pinned copy (%d rows only in the tree, %d only "
+                         "in the copy, %d / %d rows%s); first: %s | %s" % (
+                             n, len(only_live), len(only_pin), len(a), len(b),
+                             "" if (only_live or only_pin) else ", order differs",
+                             (only_live or ["-"])[0][:160], (only_pin or ["-"])[0][:160]))
+    return notes
+
+
+if __name__ == "__main__":
+    import sys
+    if sys.argv[1:] == ["--write-pinned"]:
+        print(write_pinned())
+    elif sys.argv[1:] == ["--diff"]:
+        for ln in live_differences() or ["the tables of %s equal the pinned copy" % REPO]:
+            print(ln)
+    else:
+        print("usage: python -m mc.ref.tables --write-pinned | --diff")
